@@ -46,17 +46,22 @@ def Arch.extractRange (A : Arch α) (s e : Nat) : Except ShapeErr (Arch α) :=
 
 def isKindChar (c : Char) : Bool := c.isAlpha || c == '.' || c == '_'
 
-/-- the pattern `^(\d+)\.([A-Za-z._]*?)(\.npy)?$`: digits, kind -/
-def parseEntryName (s : String) : Option (String × String) :=
-  let cs := s.toList
+/-- the suffix `.npy` -/
+def npySuffix : List Char := ['.', 'n', 'p', 'y']
+
+/-- the pattern `^(\d+)\.([A-Za-z._]*?)(\.npy)?$` on the characters of a name: digits, kind -/
+def parseEntryChars (cs : List Char) : Option (List Char × List Char) :=
   let digits := cs.takeWhile Char.isDigit
   if digits.isEmpty then none else
   match cs.drop digits.length with
   | '.' :: rest =>
-    let suffix := ".npy".toList
-    let body := if rest.length ≥ 4 && rest.drop (rest.length - 4) == suffix then rest.take (rest.length - 4) else rest
-    if body.all isKindChar then some (String.ofList digits, String.ofList body) else none
+    let body := if rest.length ≥ 4 && rest.drop (rest.length - 4) == npySuffix then rest.take (rest.length - 4) else rest
+    if body.all isKindChar then some (digits, body) else none
   | _ => none
+
+/-- the pattern `^(\d+)\.([A-Za-z._]*?)(\.npy)?$`: digits, kind -/
+def parseEntryName (s : String) : Option (String × String) :=
+  (parseEntryChars s.toList).map (fun p => (String.ofList p.1, String.ofList p.2))
 
 /-- sort key of the (repaired) reader: numeric prefix before the first dot, then the name -/
 def entryIndex (s : String) : Option Nat :=
